@@ -74,6 +74,34 @@ def run(tier, seed):
                              {'pattern_alias': f'{X}:--c', 'custom': {':--c': body}, 'pattern_is': f'{X}:is({body})', 'namespaces': nsmap,
                               'markup': matchcheck.markup_of(sc), 'alias_selected': matchcheck.paths_of(sc, a_),
                               'is_selected': matchcheck.paths_of(sc, b_)})
+    # a default namespace constrains only unprefixed type selectors and the implied universal of a top-level compound:
+    # with an explicit *| the answer does not depend on the default entry - also for pseudo-classes whose definitions are
+    # internal selector lists with bare type selectors (:link, :checked, :disabled, ...)
+    STATES = [':link', ':any-link', ':checked', ':disabled', ':enabled', ':required', ':optional', ':read-write', ':read-only', ':default',
+              ':indeterminate', ':placeholder-shown', ':dir(ltr)', ':root', ':empty', ':first-child', ':lang(en)', ':in-range']
+    hdocs = campaign.build(rnd, 'forms', n // 8, 0, modes=['html5lib', 'xhtml', 'html5lib']) + \
+        [sc for sc in campaign.build(rnd, 'ns', n // 4, 0) if selspec.Doc(sc.top).is_html]
+    for sc in hdocs:
+        top = sc.top
+        used = sorted({e.namespace for e in top.find_all(True) if getattr(e, 'namespace', None)}) or ['urn:x']
+        for st in rnd.sample(STATES, 6):
+            pat = rnd.choice(['*|*', '*|a', '*|input', 'q|*']) + st
+            base = {'q': rnd.choice(used)}
+            with warnings.catch_warnings():
+                warnings.simplefilter('ignore')
+                try:
+                    r0 = [id(e) for e in sv.select(pat, top, namespaces=base)]
+                    variants = {d: [id(e) for e in sv.select(pat, top, namespaces=dict(base, **{'': d}))]
+                                for d in ('http://www.w3.org/2000/svg', 'urn:nowhere', 'http://www.w3.org/1999/xhtml')}
+                except Exception:
+                    continue
+            ck.count(('default-irrelevant', st, len(r0) > 0))
+            for d, rv in variants.items():
+                if rv != r0:
+                    ck.violation(f'{pat!r} selects {len(r0)} element(s) with namespaces {base!r} but {len(rv)} once a default namespace {d!r} is '
+                                 'added, although every compound has an explicit prefix',
+                                 {'pattern': pat, 'namespaces': base, 'default_added': d, 'markup': matchcheck.markup_of(sc), 'tree': sc.label})
+                    break
     recs = matchcheck.run_corr(ck, scs)
     C01.oracle(ck, scs, recs)
     return ck.finish(
